@@ -1558,9 +1558,9 @@ class Color(object):
     @staticmethod
     def parse_color_rgb(values):
         """Parse SVG Color, RGB value declarations"""
-        r = int(values[0])
-        g = int(values[1])
-        b = int(values[2])
+        r = float(values[0])
+        g = float(values[1])
+        b = float(values[2])
         if values[3] is not None:
             opacity = float(values[3])
         else:
